@@ -114,7 +114,70 @@ fn gen_bits_string(rng: &mut Rng, n: usize) -> String {
     }
 }
 
+/// Large values next to the boundaries small ones cannot reach (65 536 elements / bits, sparse DArray blocks,
+/// several select samples and hints).
+fn gen_big_spec(rng: &mut Rng, tier: Tier) -> Spec {
+    match rng.below(3) {
+        0 => {
+            let alias = *rng.pick(&ALL_TREES);
+            let ty = *rng.pick(&ALL_TYS);
+            let cfg = TreeGenCfg {
+                degree: if alias.is_quad() { 4 } else { 2 },
+                table_indexed: alias.is_huffman(),
+                ty,
+                tier,
+            };
+            let (seq, _) = crate::gen::gen_big_tree_seq(rng, &cfg);
+            Spec::Tree {
+                alias,
+                ty,
+                path: *rng.pick(&ALL_PATHS),
+                seq,
+                orders: (rng.next_u64(), rng.next_u64()),
+            }
+        }
+        1 => {
+            let kind = *rng.pick(&[Flat::BitVector, Flat::BitVectorMut, Flat::RSNarrow, Flat::RSWide, Flat::DArray, Flat::DArray0]);
+            let n = *rng.pick(&[65536usize, 70000, 131072, 150000, 200000]) + rng.usize_below(2000);
+            let style = rng.below(4);
+            let mut bits = String::with_capacity(n);
+            let mut i = 0;
+            while i < n {
+                // regions of ~20 000 bits: very sparse (sparse DArray blocks), dense, or all equal
+                let len = (15000 + rng.usize_below(10000)).min(n - i);
+                let dens: u64 = match (style, rng.below(3)) {
+                    (0, _) => 1,
+                    (1, _) => 600,
+                    (_, 0) => 1,
+                    (_, 1) => 900,
+                    _ => 1024,
+                };
+                for _ in 0..len {
+                    bits.push(if rng.below(1024) < dens { '1' } else { '0' });
+                }
+                i += len;
+            }
+            Spec::Bits { kind, bits }
+        }
+        _ => {
+            let kind = *rng.pick(&[Flat::QVector, Flat::RSQVector256, Flat::RSQVector512]);
+            let n = *rng.pick(&[65536usize, 70000, 131072, 150000]) + rng.usize_below(2000);
+            let common = rng.below(4) as u8;
+            let rare_every = *rng.pick(&[3u64, 50, 5000]);
+            let syms = (0..n).map(|_| if rng.below(rare_every) == 0 { rng.below(4) as u8 } else { common }).collect();
+            Spec::Quads { kind, syms }
+        }
+    }
+}
+
 pub fn gen_spec(rng: &mut Rng, tier: Tier) -> Spec {
+    if rng.below(match tier {
+        Tier::Quick => 250,
+        Tier::Thorough => 80,
+    }) == 0
+    {
+        return gen_big_spec(rng, tier);
+    }
     match rng.below(20) {
         0 => Spec::TreeDefault {
             alias: *rng.pick(&ALL_TREES),
